@@ -208,7 +208,12 @@ class C18(Prop):
             acc.count("eof_expected")
             if await td.wait_eof(conn, 5.0):
                 acc.count("eof_seen_by_device")
-                if conn.reset and cur.get("unread"):
+                late_reply = len(conn.sent) > cur.get("sent_before_action", 0)
+                if conn.reset and cur.get("unread") and late_reply:
+                    # the device answered into a socket the client had already closed (the client had run ahead of it on stale
+                    # data): the reset is TCP's reply to that, not a verdict on how the client closes
+                    acc.count("resets_explained_by_a_reply_sent_after_the_close")
+                elif conn.reset and cur.get("unread"):
                     acc.violation("socket-reset-instead-of-end-of-stream", f"type {t} history {history}: after {after!r} the device's read failed with a connection "
                                   f"reset instead of ending: about 6 KB of its data were still unread on the client side when the socket was closed",
                                   {"history": history, "after": after, "trace": trace})
@@ -266,6 +271,7 @@ class C18(Prop):
         for a in history:
             acc.ev()
             acc.count(f"action_{a}")
+            cur["sent_before_action"] = len(cur["conn"].sent) if cur.get("conn") is not None else 0
             # the host's wall clock is not monotonic: NTP steps, manual corrections, suspended machines
             env.idle(rs.choice([0, 0, 0, 0.3, 2, 12, 61, 900, 86400]))      # ... and real time passes between the calls
             step = rs.choice([0, 0, 0, 1, 75, 3600, -2, -1800, -86400])
